@@ -154,7 +154,8 @@ def audit(pid: str) -> dict:
 
 
 TIE_THEOREM = {"Secs": "secs_tie", "NoteDur": "noteDur_tie", "BpmDecode": "bpmDecode_tie", "BpmValid": "bpmValid_tie",
-               "Nps": "nps_tie", "Anchor": "anchor_tie", "Hopo": "hopo_tie"}
+               "Nps": "nps_tie", "Anchor": "anchor_tie", "Hopo": "hopo_tie",
+               "Phrase": ["tickAdd_tie", "endTick_tie", "after_tie", "during_tie"]}
 
 
 def leaf_ties(prop, st, tier="quick") -> dict:
@@ -174,8 +175,10 @@ def leaf_ties(prop, st, tier="quick") -> dict:
         src = strip_comments((LEAN / "Chartparse" / "Tie" / f"{X}.lean").read_text()) + strip_comments((LEAN / "Chartparse" / "Tie" / "Common.lean").read_text())
         adir = LEAN / ".audit"
         adir.mkdir(exist_ok=True)
-        name = f"Chartparse.Tie.{TIE_THEOREM[X]}"
-        body = f"import Chartparse.Tie.{X}\n#print axioms {name}\n"
+        thms = TIE_THEOREM[X] if isinstance(TIE_THEOREM[X], list) else [TIE_THEOREM[X]]
+        names = [f"Chartparse.Tie.{t}" for t in thms]
+        name = ", ".join(names)
+        body = f"import Chartparse.Tie.{X}\n" + "".join(f"#print axioms {n}\n" for n in names)
         trace = LEAN / ".lake" / "build" / "lib" / "lean" / "Chartparse" / "Tie" / f"{X}.trace"
         key = hashlib.sha256((body + (trace.read_text() if trace.exists() else str(time.time()))).encode()).hexdigest()
         cache = adir / f"Tie{X}.json"
@@ -189,8 +192,12 @@ def leaf_ties(prop, st, tier="quick") -> dict:
             if rc == 0:
                 cache.write_text(json.dumps({"key": key, "out": out2}))
         flat = re.sub(r"\s+", " ", out2)
-        m = re.search(r"'" + re.escape(name) + r"' (does not depend on any axioms|depends on axioms: \[([^\]]*)\])", flat)
-        ax = [] if (not m or m.group(2) is None) else [a.strip() for a in m.group(2).split(",") if a.strip()]
+        ax, m = [], True
+        for n_ in names:
+            m_ = re.search(r"'" + re.escape(n_) + r"' (does not depend on any axioms|depends on axioms: \[([^\]]*)\])", flat)
+            m = m and bool(m_)
+            if m_ and m_.group(2) is not None:
+                ax += [a.strip() for a in m_.group(2).split(",") if a.strip() and a.strip() not in ax]
         clean = bool(m) and all(a in ALLOWED_AXIOMS for a in ax) and not FORBIDDEN.search(src)
         res[X] = {"proved": clean, "theorem": name, "axioms": ax} if clean else {"proved": False, "why": f"axiom audit of {name} failed: {flat[-200:]}"}
         if clean and tier == "thorough":
